@@ -1,5 +1,6 @@
 (* Extraction of the C18 models.  Directives used: ExtrOcamlBasic (bool, option, unit, list, prod,
-   sumbool -> OCaml natives) and nothing else; nat, N, positive stay the inductive datatypes. *)
-From Coq Require Import Extraction ExtrOcamlBasic.
-From NV Require Import Mem.Rc.
-Extraction "c18_model.ml" step init observe leaked MAX_REF_COUNT.
+   sumbool -> OCaml natives) and ExtrOcamlNativeString (string -> OCaml string), nothing else; nat, N,
+   positive stay the inductive datatypes. *)
+From Coq Require Import Extraction ExtrOcamlBasic ExtrOcamlNativeString.
+From NV Require Import Mem.Rc Mem.StackBase Mem.Stack.
+Extraction "c18_model.ml" step init observe leaked MAX_REF_COUNT srun marker_num.
